@@ -75,6 +75,7 @@ func lfsrBytesSeed(n int, seed int64) []byte {
 }
 
 type sliceReader struct {
+	eofWithData bool // deliver io.EOF together with the final bytes (allowed by the io.Reader contract)
 	b      []byte
 	pos    int
 	chunk  func() int // max bytes per Read (0 = unlimited)
@@ -108,6 +109,9 @@ func (s *sliceReader) Read(p []byte) (int, error) {
 	}
 	copy(p, s.b[s.pos:s.pos+n])
 	s.pos += n
+	if s.eofWithData && s.pos == len(s.b) {
+		return n, io.EOF
+	}
 	return n, nil
 }
 
@@ -222,6 +226,16 @@ func (c *hCtx) checkChunking() {
 				return
 			}
 		}
+		// a source holding exactly the required bytes that reports io.EOF together with the last chunk
+		for _, ch := range []int{0, 997} {
+			ch := ch
+			c.resp.Cases[name]++
+			got := runWF(w.f, safeReader(&sliceReader{b: data[:w.bytes], failAt: -1, eofWithData: true, chunk: func() int { return ch }}), limitFor(w))
+			if got != base {
+				c.report(name, map[string]interface{}{"workflow": w.name, "chunk": ch, "source": "exactly the required bytes, io.EOF returned together with the final bytes", "seed": c.req.Seed}, got.String(), "same as with full-buffer reads: "+base.String())
+				return
+			}
+		}
 		c.resp.Cases[name]++
 		rr := rand.New(rand.NewSource(c.req.Seed + 5))
 		got := runWF(w.f, safeReader(&sliceReader{b: data, failAt: -1, chunk: func() int { return 1 + rr.Intn(5000) }}), limitFor(w))
@@ -252,12 +266,15 @@ func (c *hCtx) checkFailing() {
 		if w.bytes == 50*125000 {
 			sample = 125000
 		}
-		offs := []int{0, 1, sample - 1, sample, sample + 1, w.bytes - 1}
+		offs := []int{0, 1, sample - 1, sample, sample + 1, w.bytes - sample, w.bytes - sample - 1, w.bytes - 1}
 		for _, off := range offs {
 			for _, e := range []error{io.EOF, io.ErrUnexpectedEOF, custom} {
 				c.resp.Cases[name]++
 				before := runtime.NumGoroutine()
 				data := goodBytes(c.req.Seed+11, w.bytes)
+				if sample == 2500 {
+					data = allPassStream(c.req.Seed+11, w.bytes/sample, sample)
+				}
 				got := runWF(w.f, safeReader(&sliceReader{b: data, failAt: off, err: e}), 30*time.Second+limitFor(w)/4)
 				in := map[string]interface{}{"workflow": w.name, "fail_offset": off, "error": e.Error()}
 				if got.timeout || got.pan != "" || got.ok || got.err == "" {
@@ -284,6 +301,36 @@ func (c *hCtx) checkFailing() {
 			return
 		}
 	}
+}
+
+// allPassStream searches for a stream of s samples in which every sample passes every one of the 12 items,
+// so that a workflow that wrongly goes on to judge after a truncated read has the best chance to accept.
+var allPassCache = map[string][]byte{}
+
+func allPassStream(seed int64, s, n int) []byte {
+	key := fmt.Sprint(seed, s, n)
+	if b, ok := allPassCache[key]; ok {
+		return b
+	}
+	best := goodBytes(seed, s*n)
+	for try := int64(0); try < 150; try++ {
+		b := goodBytes(seed+1000*try, s*n)
+		ok := true
+		for i := 0; i < s && ok; i++ {
+			for _, r := range Round12(b[i*n : (i+1)*n]) {
+				if !r.Pass {
+					ok = false
+					break
+				}
+			}
+		}
+		if ok {
+			best = b
+			break
+		}
+	}
+	allPassCache[key] = best
+	return best
 }
 
 // C08: fast == sequential (verdict and named item)
